@@ -335,6 +335,38 @@ def nat_dump_dropping_validator(h):
             shutil.rmtree(d, ignore_errors=True)
 
 
+def nat_load_pair_selectors(h):
+    """load((descriptor, iterators), resources=SEL) over a SEQUENTIAL source (unstream: all resources read from one file handle):
+    every selector form delivers exactly the selected resources, each with ITS OWN rows"""
+    import re
+    from dataflows import Flow, load, stream, unstream, update_resource
+    names = ['a', 'b', 'c', 'ab']
+    data = {n: [{'k': '%s-row-%d' % (n, i)} for i in range(j + 1)] for j, n in enumerate(names)}
+    d = tempfile.mkdtemp(prefix='c10l_')
+    try:
+        fn = os.path.join(d, 's.ndjson')
+        Flow(*[x for n in names for x in (data[n], update_resource(-1, name=n))], stream(fn)).process()
+        for sel in (None, 'a', 'b', ['b'], 1, -1, 'c', ['a', 'c'], 'b|c', 'a.*', ['ab', 'b'], 0, 3, 'zzz'):
+            if sel is None:
+                want = list(names)
+            elif isinstance(sel, int):
+                want = [names[sel]]
+            elif isinstance(sel, list):
+                want = [n for n in names if n in sel]
+            else:
+                want = [n for n in names if re.fullmatch(sel, n)]
+
+            def run():
+                ds = Flow(unstream(fn)).datastream()
+                res, dp, _ = Flow(load((ds.dp.descriptor, ds.res_iter), resources=sel)).results()
+                return [(r['name'], rows) for r, rows in zip(dp.descriptor['resources'], res)]
+            got = h.run(run)
+            h.check(got[0] == 'ok' and got[1] == [(n, data[n]) for n in want], 'dataflows/processors/load.py::load.safe_process_datapackage',
+                    ('selector', sel), [(n, len(data[n])) for n in want], got[1] if got[0] == 'ok' else got[:2])
+    finally:
+        shutil.rmtree(d, ignore_errors=True)
+
+
 # ------------------------------------------------------------------------------------------------ C19
 
 def nat_dump_crashpoints(h):
